@@ -30,6 +30,10 @@ TARGET_FACTORS = [1.0, 1 - 1e-12, 1 + 1e-12, 0.9995, 1.0005, 0.999, 1.001, 0.75,
                   1e-3, 0.1, 0.9, 1e-6]
 
 
+# (factor on the fluence, Cd ratio, fast ratio) of the environment object at the time of the earlier calculation
+SCAN_BEFORE = [(10.0, None, None), (0.01, None, None), (1e3, None, None), (30.0, 2.0, 5.0), (1e-3, 0.0, 0.0), (7.0, 70.0, 50.0)]
+
+
 def gen_rest_list(rng):
     r = rng.random()
     if r < 0.15:
@@ -78,6 +82,32 @@ def same_daughter_cases(R, rng, n):
     return out
 
 
+def explicit_isotope_cases(R, rng, activation):
+    """samples that name one isotope explicitly, for every isotope that has activation rows (exhaustive; the
+    isotopes without natural abundance that are tabulated all the same - Tc-98, Au-198 - are taken alone, next
+    to a natural element and as an ion, the others once)"""
+    out = []
+    els = sorted({z for z, _ in R.isotopes})
+    for z, a in R.isotopes:
+        try:
+            rare = not activation.NIST2001_isotopic_abundance(R.pt.elements[z][a])
+        except Exception:  # noqa
+            rare = True
+        variants = [[(1, (z, a, 0))]]
+        if rare:
+            ions = [q for q in R.pt.elements[z].ions if q]
+            variants.append([(1, (z, a, 0)), (rng.choice([1, 2, 0.5]), (rng.choice(els), 0, 0))])
+            variants.append([(2, (rng.choice(els), 0, 0)), (1, (z, a, rng.choice(ions) if ions else 0))])
+        for atoms in variants:
+            for x in ([0.5, 1e-3, 2.0] if rare else [rng.choice([0.5, 1e-2, 1e-4])]):
+                mass, fl, cd, fr, t = AC.gen_env(rng)
+                fl = AC.logu(rng, 1e6, 1e13)
+                if rng.random() < 0.5:
+                    cd, fr = 0.0, 0.0
+                out.append(("explicit-isotope", atoms, mass, fl, cd, fr, t, gen_rest_list(rng), gen_rest_list(rng), x))
+    return out
+
+
 def corpus():
     co = [(30, (27, 0, 0)), (70, (26, 0, 0))]
     h2o = [(2, (1, 0, 0)), (1, (8, 0, 0))]
@@ -93,7 +123,7 @@ def corpus():
     return out
 
 
-def calc(activation, formula, atoms, mass, fl, cd, fr, t, rests, reuse=False, pre_target=1e-3):
+def calc(activation, formula, atoms, mass, fl, cd, fr, t, rests, reuse=False, pre_target=1e-3, scan=0):
     from .. import pyside
     s = activation.Sample(formula(pyside.struct_objs(atoms)), mass)
     if reuse:   # the Sample was used for another calculation (and a decay_time for the same target) before
@@ -105,6 +135,21 @@ def calc(activation, formula, atoms, mass, fl, cd, fr, t, rests, reuse=False, pr
             except Exception:  # noqa
                 pass
     env = activation.ActivationEnvironment(fluence=fl, Cd_ratio=cd, fast_ratio=fr)
+    if reuse == "env":
+        # a scan: the same Sample and the same environment object were used for an activation calculation
+        # (same exposure, mass and abundance function) when the environment described another beam; its
+        # attributes are then updated in place and the sample is activated again
+        fl0, cd0, fr0 = SCAN_BEFORE[scan % len(SCAN_BEFORE)]
+        before = min(max(fl * fl0, AC.FLUENCE[0]), AC.FLUENCE[1])       # stays in the stated range
+        if before == fl:
+            before = fl / fl0
+        env.fluence, env.Cd_ratio, env.fast_ratio = before, (cd if cd0 is None else cd0), (fr if fr0 is None else fr0)
+        try:
+            s.calculate_activation(env, exposure=t, rest_times=list(rests) if scan % 2 else [0.0, 3.0])
+            s.decay_time(1e-3)
+        except Exception:  # noqa   (a failure of the earlier calculation is C14's business)
+            pass
+        env.fluence, env.Cd_ratio, env.fast_ratio = fl, cd, fr
     s.calculate_activation(env, exposure=t, rest_times=list(rests))
     return s
 
@@ -128,6 +173,21 @@ def parts_of(s, activation):
             parts.append((frac, [(el.number, i, activation.NIST2001_isotopic_abundance(el[i]))
                                  for i in el.isotopes]))
     return parts
+
+
+def independent_a0(R, activation, s0, mass, fl, cd, fr, t):
+    """[(row, activity at removal)] from activity() on each isotope of the sample alone"""
+    exp = {}
+    for frac, isos in parts_of(s0, activation):
+        for z, a, share in isos:
+            m = mass * frac if share is None else mass * frac * share * 0.01
+            if share is not None and not m:
+                continue
+            r = C14.py_activity(R, activation, z, a, m, fl, cd, fr, t, [0.0])
+            if r[0] == "ok":
+                for i_, v in r[1].items():
+                    exp[i_] = exp.get(i_, 0.0) + v[0]
+    return sorted(exp.items())
 
 
 def same_time(a, b, slack=0.0):
@@ -164,20 +224,10 @@ def check_cases(run: Run, R, cases, activation):
         except Exception as e:  # noqa   (C14's business; recorded there too)
             run.count(key=repr(case), nontrivial=False, tag="stream:activation-failed")
             continue
-        if stream == "same-daughter":
+        if stream in ("same-daughter", "explicit-isotope"):
             # reference activities row by row from activity() on each isotope alone (independent of how
             # the Sample keys and accumulates its products)
-            exp = {}
-            for frac, isos in parts_of(s0, activation):
-                for z, a, share in isos:
-                    m = mass * frac if share is None else mass * frac * share * 0.01
-                    if share is not None and not m:
-                        continue
-                    r = C14.py_activity(R, activation, z, a, m, fl, cd, fr, t, [0.0])
-                    if r[0] == "ok":
-                        for i_, v in r[1].items():
-                            exp[i_] = exp.get(i_, 0.0) + v[0]
-            a0 = sorted(exp.items())
+            a0 = independent_a0(R, activation, s0, mass, fl, cd, fr, t)
         if any(v < 0 for _, v in a0):
             # a negative product activity is C14's failure (known finding D12b: '2n' rows); "the summed
             # activity of all products" is then not a meaningful reference for decay_time
@@ -189,6 +239,15 @@ def check_cases(run: Run, R, cases, activation):
             run.count(key=repr(case), nontrivial=False, tag="stream:no-activity")
             continue
         r1, r2 = decay(s1, target), decay(s2, target)
+        # the same Sample and environment object after the beam parameters were changed in place
+        scan = run.rng.randrange(len(SCAN_BEFORE) * 2)
+        try:
+            r4 = decay(calc(activation, formula, atoms, mass, fl, cd, fr, t, rests, reuse="env", scan=scan), target)
+        except Exception as e:  # noqa
+            r4 = r1
+            run.violation("activating a Sample again after its environment object was updated in place raised %s "
+                          "(a fresh Sample and environment compute)" % type(e).__name__,
+                          dict(inp, target=target, scan=scan), clause="same-sample-same-environment-object")
         # another sample is activated in between: the answer for this one must not move
         try:
             other = activation.Sample(formula("Au" if atoms[0][1][0] != 79 else "Co"), 2.5)
@@ -238,11 +297,11 @@ def check_cases(run: Run, R, cases, activation):
         reqs.append(AC.calc_line(mass, fl, cd, fr, t, rests, parts_of(s1, activation)))
         reqs.append("removal")
         reqs.append("decay %s" % f2h(target))
-        infos.append((case, inp, a0, total0, target, r1, r2, feed, half))
+        infos.append((case, inp, a0, total0, target, r1, r2, feed, half, (scan, r4)))
     reps = run_driver("activation", reqs) if reqs else []
     if len(reps) != len(reqs):
         raise InfraError("driver returned %d replies for %d requests" % (len(reps), len(reqs)))
-    for j, (case, inp, a0, total0, target, r1, r2, feed, half) in enumerate(infos):
+    for j, (case, inp, a0, total0, target, r1, r2, feed, half, (scan, r4)) in enumerate(infos):
         rd, rc, rrem, rdec = reps[4 * j:4 * j + 4]
         inp = dict(inp, target=target, activity_at_removal=total0)
         halves = sorted({R.fields(i)["Thalf_hrs"] for i, v in a0 if v > 0})
@@ -284,6 +343,14 @@ def check_cases(run: Run, R, cases, activation):
                         (m2[0] == "ok" and not close(m2[1], r1[1], rel=1e-7, abs_=1e-9)):
                     run.disagree("decay_time", inp, m2, r1, what="calculate_activation + decay_time")
         oracle(run, R, inp, a0, total0, target, r1, r2)
+        if r4 != r1:
+            # judged by the property itself (not by equality with the fresh sample's answer)
+            fl0, cd0, fr0 = SCAN_BEFORE[scan % len(SCAN_BEFORE)]
+            oracle(run, R, dict(inp, sequence="one Sample, one ActivationEnvironment object: calculate_activation with "
+                                "fluence x %g%s; the environment's attributes set in place to the values of this input; "
+                                "calculate_activation again; decay_time(target)"
+                                % (fl0, "" if cd0 is None else ", Cd ratio %g, fast ratio %g" % (cd0, fr0)),
+                                scan=scan, fresh_sample_result=r1), a0, total0, target, r4, r4)
 
 
 def oracle(run, R, inp, a0, total0, target, r1, r2):
@@ -330,7 +397,7 @@ def run(run: Run) -> int:
     R = AC.Rows()
     n = 1200 if run.tier == "quick" else 50000
     cases = corpus() + same_daughter_cases(R, run.rng, 16 if run.tier == "quick" else 200) + \
-        [gen_case(R, run.rng) for _ in range(n)]
+        explicit_isotope_cases(R, run.rng, activation) + [gen_case(R, run.rng) for _ in range(n)]
     for i in range(0, len(cases), 5000):
         check_cases(run, R, cases[i:i + 5000], activation)
     return run.finish(RULE, assumptions=[
@@ -350,6 +417,8 @@ def replay(data) -> int:
         args = (inp["mass"], inp["fluence"], inp["Cd_ratio"], inp["fast_ratio"], inp["exposure"])
         s0 = calc(activation, formula, atoms, *args, [0.0])
         a0 = [(R.index_of[id(k)], x[0]) for k, x in s0.activity.items()]
+        if inp.get("stream") in ("same-daughter", "explicit-isotope"):
+            a0 = independent_a0(R, activation, s0, *args)
         total0 = math.fsum(x for _, x in a0)
         target = inp.get("target", inp["target_factor"] * total0)
         print("input:", {k: inp[k] for k in ("atoms", "mass", "fluence", "Cd_ratio", "fast_ratio", "exposure",
@@ -363,6 +432,12 @@ def replay(data) -> int:
                 at = O.total_activity(products, r[1])
                 print("   oracle: activity at removal %.12g, at t %.12g, target %.12g (ratio %.9f)"
                       % (float(O.total_activity(products, 0.0)), float(at), target, float(at / O.dec(target))))
+        if "scan" in inp:
+            r = decay(calc(activation, formula, atoms, *args, inp["rest_times"], reuse="env", scan=inp["scan"]), target)
+            print(" real code  same Sample and environment object, beam changed in place before (scan %d): %r"
+                  % (inp["scan"], r))
+            if r[0] == "ok":
+                print("   oracle: activity at t %.12g, target %.12g" % (float(O.total_activity(products, r[1])), target))
         half = {i: R.fields(i)["Thalf_hrs"] for i, _ in a0}
         rep = run_driver("activation", ["decaydata %s %d %s" % (
             f2h(target), len(a0), " ".join("%s %s" % (f2h(x), f2h(half[i])) for i, x in a0))])[0]
